@@ -200,6 +200,7 @@ class SimUser:
         self.last_cmd = None
         self.pending_read = None
         self.quit_at = None
+        self.issued = []
         self.advance()
 
     # ---- protocol: run the model to the next expected pause
@@ -348,49 +349,81 @@ class SimUser:
     # ---- seam: ask_for_command
     def ask(self, prompt):
         self.prompts += 1
+        script = self.case.get('commands')
+        if script is not None:
+            raw = script[self.prompts - 1] if self.prompts - 1 < len(script) else 'ca'
+        elif self.violation is not None or self.prompts > 40:
+            raw = 'ca'
+        else:
+            raw = self.draw_command()
+        self.issued.append(raw)
+        return self.dispatch(raw)
+
+    def draw_command(self):
         r = self.rng
-        if self.violation is not None or self.prompts > 40:
-            return self.resume('ca')
         k = r.random()
         if k < 0.22:
-            return self.resume(r.choice(['s', 'step', 'S', ' step ']))
+            return r.choice(['s', 'step', 'S', ' step '])
         if k < 0.36:
             n = r.choice([1, 1, 2, 3, 5, 10, 17, 200, 1000])
-            form = r.choice(['s {}', 'skip {}', 's 0x{:x}', 'skip 0x{:x}'])
-            return self.resume(form.format(n), skip=n)
+            return r.choice(['s {}', 'skip {}', 's 0x{:x}', 'skip 0x{:x}']).format(n)
         if k < 0.42:
-            bad = r.choice(['s 0', 'skip -3', 's x', 'skip 1.5', 's 0x', 'skip'])
-            self.transcript.append(('cmd', bad))
-            if bad == 'skip':
-                pass          # 'skip' alone is not 'step' (only s/step) -> unknown command, re-prompt
-            return bad
+            return r.choice(['s 0', 'skip -3', 's x', 'skip 1.5', 's 0x', 'skip'])
         if k < 0.55:
-            return self.resume(r.choice(['c', 'cont', 'continue', 'C']))
+            return r.choice(['c', 'cont', 'continue', 'C'])
         if k < 0.59:
-            return self.resume(r.choice(['c*', 'ca', 'continue all', 'CA']))
+            return r.choice(['c*', 'ca', 'continue all', 'CA'])
         if k < 0.80:
-            target = self.gen_read_target()
-            self.pending_read = self.expected_read(target)
-            self.states.add(f"read|{self.pending_read[0]}|{target.split(':')[1][:1] if target.startswith(':') else 'plain'}")
-            self.transcript.append(('cmd', 'r ' + target))
-            return r.choice(['r ', 'read ']) + target
+            return r.choice(['r ', 'read ']) + self.gen_read_target()
         if k < 0.84:
-            c = r.choice(['h', 'help', '?'])
-            self.transcript.append(('cmd', c))
-            return c
+            return r.choice(['h', 'help', '?'])
         if k < 0.88:
-            c = r.choice(['foo', 'x 1', 'continue now', 'r'])
-            self.transcript.append(('cmd', c))
-            return c
+            return r.choice(['foo', 'x 1', 'continue now', 'r'])
         if k < 0.92:
-            self.transcript.append(('cmd', ''))
             return ''
         if k < 0.95:
-            return self.resume(r.choice(['q', 'quit', 'exit']))
+            return r.choice(['q', 'quit', 'exit'])
         if k < 0.975:
+            return None
+        return '^C'
+
+    def dispatch(self, raw):
+        """interpret the command by the DOCUMENTED grammar (the debugger's help text), update the protocol state and
+        hand the raw line to the debugger"""
+        if raw is None:
             return self.resume(None)
-        self.resume('^C')
-        raise KeyboardInterrupt()
+        if raw == '^C':
+            self.resume('^C')
+            raise KeyboardInterrupt()
+        line = raw.strip()
+        self.transcript.append(('cmd', raw))
+        if not line:
+            return raw
+        tokens = line.split()
+        command, arg = tokens[0].lower(), (tokens[1] if len(tokens) > 1 else None)
+        if command in ('r', 'read') and arg is not None:
+            target = ' '.join(tokens[1:])
+            self.pending_read = self.expected_read(target)
+            self.states.add(f"read|{self.pending_read[0]}|{target.split(':')[1][:1] if target.startswith(':') else 'plain'}")
+            return raw
+        self.transcript.pop()
+        if command in ('s', 'step') and arg is None:
+            return self.resume(raw)
+        if command in ('s', 'skip') and arg is not None:
+            try:
+                n = int(arg, 0)
+            except ValueError:
+                n = None
+            if n is not None and n > 0:
+                return self.resume(raw, skip=n)
+        elif command in ('c', 'cont', 'continue') and arg is None:
+            return self.resume(raw)
+        elif command in ('c*', 'ca') or line.lower() == 'continue all':
+            return self.resume(raw)
+        elif command in ('q', 'quit', 'exit'):
+            return self.resume(raw)
+        self.transcript.append(('cmd', raw))      # help / unknown / malformed: the debugger re-prompts
+        return raw
 
     def resume(self, cmd, skip=None):
         """the user picked a command that ends this pause: update the protocol state and advance the model"""
@@ -545,7 +578,8 @@ def run(case):
                 v = {'clause': 'debugged-vs-undebugged-output', 'expected': d[1] if d else None,
                      'observed': d[2] if d else None}
     if v is not None:
-        v.update({'config': None, 'config_name': 'debug-session', 'transcript': C._j(user.transcript[-12:])})
+        v.update({'config': None, 'config_name': 'debug-session', 'transcript': C._j(user.transcript[-12:]),
+                  'issued': list(user.issued)})
         violations.append(v)
     probes = {'pauses': user.pauses, 'prompts': user.prompts, f"w{case['w']}": 1,
               'sessions_with_pause': 1 if user.pauses else 0, 'quit_sessions': 1 if user.quit_at is not None else 0}
@@ -565,7 +599,41 @@ def _res(case, violations, probes, states, steps, nontrivial, extra):
 
 
 def minimise(case, violation):
-    return case, violation
+    """replace the adaptive user by the explicit command list it issued, then drop commands that do not resume the
+    run (reads, help, unknown, empty) while the same clause persists"""
+    import copy
+    issued = violation.get('issued')
+    if not issued:
+        return case, violation
+    want = violation['clause']
+
+    def fails(c):
+        try:
+            r = run(c)
+        except kernel.WatchdogTimeout:
+            raise
+        except Exception:
+            return None
+        for v in r['violations']:
+            if v['clause'] == want:
+                return v
+        return None
+    best = copy.deepcopy(case)
+    best['commands'] = list(issued)
+    bv = fails(best)
+    if bv is None:
+        return case, violation
+    i = len(best['commands']) - 1
+    tries = 0
+    while i >= 0 and tries < 60:
+        c2 = copy.deepcopy(best)
+        del c2['commands'][i]
+        tries += 1
+        v = fails(c2)
+        if v is not None:
+            best, bv = c2, v
+        i -= 1
+    return best, bv
 
 
 def signature(case, violation):
